@@ -13,11 +13,34 @@ TOLS = ["0", "1/1024", "1/4", "1"]
 SENSE = {'<=': 'Le', '>=': 'Ge', '==': 'Eq'}
 
 
+DTYPES = ['int8', 'int16', 'int32', 'int64', 'uint8', 'uint16', 'uint32', 'uint64', 'float32', 'float64']
+
+
 def rand_value(rng, v):
     _, vt, lb, ub = v
     if vt == 'SPIN':
         return rng.choice([-1, 1])
-    return rng.randint(int(lb), int(ub))
+    lb, ub = int(lb), int(ub)
+    if ub - lb > 8:
+        # wide integer domains: the ends, values around the signed maxima of every width, anything
+        cands = [lb, ub, 127, 128, 200, 255, 256, 32767, 32768, 40000, 65535, rng.randint(lb, ub), rng.randint(lb, ub)]
+        return rng.choice([x for x in cands if lb <= x <= ub])
+    return rng.randint(lb, ub)
+
+
+def fitting_dtypes(rows):
+    flat = [x for r in rows for x in r]
+    lo, hi = min(flat), max(flat)
+    out = []
+    for d in DTYPES:
+        if d.startswith('float'):
+            if hi < 2 ** 24 and lo > -2 ** 24:
+                out.append(d)
+        else:
+            info = np.iinfo(d)
+            if info.min <= lo and hi <= info.max:
+                out.append(d)
+    return out
 
 
 def rand_expr(rng, vars_, integer, allow_quad=True):
@@ -44,7 +67,10 @@ def gen_case(rng, tier):
     for l in labels:
         vt = rng.choice(['BINARY', 'BINARY', 'SPIN', 'INTEGER'])
         if vt == 'INTEGER':
-            lb = rng.choice([0, 0, -1]); ub = lb + rng.choice([1, 2])
+            if rng.random() < 0.3:
+                lb = 0; ub = rng.choice([200, 255, 300, 40000, 65535])     # wide: exercised through unsigned / narrow arrays
+            else:
+                lb = rng.choice([0, 0, -1]); ub = lb + rng.choice([1, 2])
         elif vt == 'SPIN':
             lb, ub = -1, 1
         else:
@@ -63,7 +89,11 @@ def gen_case(rng, tier):
             e["penalty"] = rng.choice(['linear', 'quadratic'])
         cons.append(e)
     rows = [[rand_value(rng, v) for v in vars_] for _ in range(rng.randint(1, 6))]
+    fit = fitting_dtypes(rows)
+    # unsigned and narrow types first when they fit: those are the ones conversions get wrong
+    pref = [d for d in fit if d.startswith('u')] * 3 + fit
     c = {"vars": vars_, "obj": obj, "cons": cons, "rows": rows,
+         "form": rng.choice(['dict', 'array', 'array', 'array']), "dtype": rng.choice(pref),
          "atol": None if default_tol else rng.choice(TOLS), "rtol": None if default_tol else rng.choice(TOLS),
          "exact": rng.random() < 0.5}
     return c
@@ -140,10 +170,14 @@ def run_case(c):
         cons.append(f"({coq_obs(gen.observe(con.lhs), T)}, {SENSE[con.sense.value]}, {cq(F(con.rhs))}, {soft})")
     cvars = [dec_label(v[0]) for v in c["vars"]]
     samples = [dict(zip(cvars, r)) for r in c["rows"]]
-    if len(samples) % 2:
+    form = c.get("form", 'dict' if len(samples) % 2 else 'array')
+    dtype = np.dtype(c.get("dtype", 'int8' if len(samples) % 4 else 'float64'))
+    if form == 'dict':
         sl = samples
     else:
-        sl = (np.array(c["rows"], dtype=np.int8 if len(samples) % 4 else float).reshape(len(samples), len(cvars)), cvars)
+        sl = (np.array(c["rows"], dtype=dtype).reshape(len(samples), len(cvars)), cvars)
+        if [[int(x) for x in r] for r in sl[0]] != [list(r) for r in c["rows"]]:
+            raise RuntimeError("generated rows are not representable in the chosen dtype")
     ss = dimod.SampleSet.from_samples_cqm(sl, cqm, **tk)
     if ss.info.get('constraint_labels') != labels:
         py_fail = "info['constraint_labels'] differs from the constraint order"
@@ -151,9 +185,11 @@ def run_case(c):
     soft_violated_feasible = False
     for k in range(len(ss.record)):
         rec = ss.record[k]
-        s = {v: int(rec.sample[i]) for i, v in enumerate(ss.variables)}
-        if s != samples[k]:
+        sd = {v: int(rec.sample[i]) for i, v in enumerate(ss.variables)}
+        if sd != samples[k]:
             py_fail = "from_samples_cqm reordered or changed the samples"
+        # the per-sample entry points get the sample in the same form (a one-row array of the same dtype)
+        s = sd if form == 'dict' else (np.array([c["rows"][k]], dtype=dtype), cvars)
         data = list(cqm.iter_constraint_data(s))
         if [d.label for d in data] != labels:
             py_fail = "iter_constraint_data labels/order"
@@ -171,7 +207,7 @@ def run_case(c):
         cf = cqm.check_feasible(s, **tk)
         if (not cf) and bool(rec.is_feasible):
             soft_violated_feasible = True
-        sample = clist([cpair(cnat(T.idx(enc_label(v))), cq(a)) for v, a in s.items()])
+        sample = clist([cpair(cnat(T.idx(enc_label(v))), cq(a)) for v, a in sd.items()])
         rdata = clist([f"({cq(F(d.lhs_energy))}, {cq(F(d.rhs_energy))}, {cq(F(d.activity))}, {cq(F(d.violation))})" for d in data])
         rows.append(f"(mkRow {sample} {rdata} {nq(viol.items(), pos)} {nq(vclip, pos)} {nq(vskip, pos)} {nq(vboth, pos)} "
                     f"{cbool(cf)} {clist([cbool(b) for b in rec.is_satisfied])} {cbool(rec.is_feasible)} {cq(F(rec.energy))})")
@@ -190,7 +226,8 @@ def run_case(c):
     strict = bool(c.get("cf_strict"))
     coq = (f"(mkCase {coq_obs(gen.observe(cqm.objective), T)} {clist(cons)} {cq(atol)} {cq(rtol)} {cbool(strict)} "
            f"{clist(rows)} {clist(xrows)})")
-    feats = {"default_tol": default_tol, "soft": any_soft, "exact": bool(xrows)}
+    feats = {"default_tol": default_tol, "soft": any_soft, "exact": bool(xrows), "form": form,
+             "dtype": dtype.name if form != 'dict' else None}
     if strict and soft_violated_feasible:
         feats["check_feasible_counts_soft"] = True
     return {"coq": coq, "py_fail": py_fail, "features": feats, "nontrivial": len(labels) > 0,
